@@ -332,3 +332,248 @@ func runRace(c *lib.Case) {
 	}
 	c.Sample("race-round", map[string]any{"streams": len(streams), "frames": nFrames.Load(), "deliveries": received, "evictions": nEvict.Load(), "space_closes": nSpaceC.Load()})
 }
+
+// race-witness: a long-lived witness stream holds a fixed set of patterns in one space while
+// racing streams of other accounts subscribe to / unsubscribe from THE SAME patterns in that
+// space and are closed at random points of their frame sequences (context cancel, failing
+// write, EOF). No evictions, no space closes. Afterwards the witness's interest must be exactly
+// what it registered: every pattern with reference count 1, one stream record, and a member's
+// publish on each topic reaches the witness exactly when one of its patterns matches.
+// (Added after seeded change C17-2 - a subscribe racing a close withdrew a shared pattern
+// twice - was missed: the first race workload only checked that everything is empty at the end.)
+func runRaceWitness(c *lib.Case) {
+	r := c.Rng
+	mem := newMembership()
+	rel := &relay{nodeIds: map[string]bool{}}
+	cfg := bigConfig()
+	cfg.DialQueueWorkers = 4
+	svc := pubsub.New(pubsub.Deps{Membership: mem, Relay: rel, Config: cfg})
+	a, err := startApp(r, svc)
+	if err != nil {
+		c.Inconclusive("service start: " + err.Error())
+		return
+	}
+	defer a.Close(context.Background())
+	pool := pubsub.VerifPool(svc)
+	const space = "sw"
+	var accts []*account
+	for i := 0; i < 4; i++ {
+		ac := newAccount(r, fmt.Sprintf("wacc%d", i))
+		accts = append(accts, ac)
+		mem.set(space, ac.id, true)
+	}
+	wAcct := accts[0]
+	allPats := enumPatterns(2)
+	topics := enumTopics(2)
+	// the witness holds 3-6 patterns; racers use the same few patterns so that references are shared
+	r.Shuffle(len(allPats), func(i, j int) { allPats[i], allPats[j] = allPats[j], allPats[i] })
+	wPats := append([]string{}, allPats[:3+r.Intn(4)]...)
+	racePats := append(append([]string{}, wPats...), allPats[len(wPats):len(wPats)+2]...)
+	witness := newFakeStream("witness", "wpeer", wAcct.identity, false)
+	wDone := make(chan struct{})
+	go func() { _ = svc.HandleStream(witness); close(wDone) }()
+	if !witness.feed(wrapSub(space, wPats), wd) {
+		c.Inconclusive("witness subscribe not consumed")
+		return
+	}
+	// wait until the witness's interest is registered (bounded poll on the snapshot)
+	registered := func() bool {
+		_, _, tries := pubsub.VerifSnapshot(svc)
+		for _, p := range wPats {
+			if tries[space][p] < 1 {
+				return false
+			}
+		}
+		return true
+	}
+	for dl := time.Now().Add(wd); !registered(); {
+		if time.Now().After(dl) {
+			c.Inconclusive("witness interest did not register")
+			return
+		}
+		time.Sleep(200 * time.Microsecond)
+	}
+	const workers = 16
+	iters := 5
+	if !c.Quick() {
+		iters = 10
+	}
+	seeds := make([]int64, workers)
+	for i := range seeds {
+		seeds[i] = r.Int63()
+	}
+	var wg sync.WaitGroup
+	var nStreams, nFrames atomic.Int64
+	var nClose [3]atomic.Int64
+	start := make(chan struct{})
+	for g := 0; g < workers; g++ {
+		wg.Add(1)
+		go func(g int) {
+			defer wg.Done()
+			lr := rand.New(rand.NewSource(seeds[g]))
+			<-start
+			for it := 0; it < iters; it++ {
+				acct := accts[1+lr.Intn(3)]
+				fs := newFakeStream(fmt.Sprintf("w%d-%d", g, it), fmt.Sprintf("wrpeer-%d", g/2), acct.identity, false)
+				done := make(chan struct{})
+				go func() { _ = svc.HandleStream(fs); close(done) }()
+				nStreams.Add(1)
+				k := 2 + lr.Intn(6)
+				closeAt := lr.Intn(k + 1)
+				mode := lr.Intn(3)
+				for f := 0; f <= k; f++ {
+					if f == closeAt {
+						switch mode {
+						case 0:
+							fs.cancel()
+						case 1:
+							fs.sendFail.Store(true)
+						default:
+							fs.signalEOF()
+						}
+						nClose[mode].Add(1)
+						if lr.Intn(2) == 0 {
+							runtime.Gosched()
+						}
+					}
+					if f == k {
+						break
+					}
+					var m *pubsubproto.PubSubMessage
+					if lr.Intn(4) > 0 {
+						n := 1 + lr.Intn(3)
+						var ps []string
+						for i := 0; i < n; i++ {
+							ps = append(ps, racePats[lr.Intn(len(racePats))])
+						}
+						m = wrapSub(space, ps)
+					} else {
+						m = wrapUnsub(space, []string{racePats[lr.Intn(len(racePats))]})
+					}
+					if !fs.feed(m, wd) {
+						break
+					}
+					nFrames.Add(1)
+				}
+				fs.signalEOF()
+				select {
+				case <-done:
+				case <-time.After(wd):
+					c.Inconclusive("HandleStream did not return in the race-witness workload")
+					return
+				}
+			}
+		}(g)
+	}
+	close(start)
+	wg.Wait()
+	c.Eval(1)
+	c.Count("witness.rounds", 1)
+	c.Count("witness.racing_streams", nStreams.Load())
+	c.Count("witness.frames_fed", nFrames.Load())
+	for i, n := range []string{"ctx-cancel", "write-error-armed", "eof"} {
+		c.Count("witness.close."+n, nClose[i].Load())
+	}
+	// quiescence: only the witness is left in the pool
+	want := map[string]int{}
+	for _, p := range wPats {
+		want[p] = 1
+	}
+	var last map[string]any
+	ok := false
+	for dl := time.Now().Add(wd); ; {
+		n, _, byTag := streampool.VerifIndexSnapshot(pool)
+		_, nrec, tries := pubsub.VerifSnapshot(svc)
+		got := tries[space]
+		same := len(got) == len(want)
+		for p, v := range want {
+			if got[p] != v {
+				same = false
+			}
+		}
+		last = map[string]any{"pool_streams": n, "pool_tags": len(byTag), "stream_records": nrec, "trie_refcounts": got, "witness_patterns": wPats}
+		if n == 1 && nrec == 1 && same && len(byTag) == len(wPats) {
+			ok = true
+			break
+		}
+		if time.Now().After(dl) {
+			break
+		}
+		time.Sleep(200 * time.Microsecond)
+	}
+	c.Count("witness.bookkeeping_checks", 1)
+	if !ok {
+		what := "trie-refcounts"
+		if last["pool_streams"].(int) != 1 {
+			what = "pool-streams"
+		} else if last["stream_records"].(int) != 1 {
+			what = "stream-records"
+		}
+		c.Violation("witness:bookkeeping:"+what, "after racing streams that shared its patterns have all closed, the surviving stream's interest bookkeeping is not exactly what it registered", last)
+		return
+	}
+	// delivery: a member publishes on every topic; a barrier (a topic the witness certainly matches) closes the window
+	pub := newFakeStream("wpub", "wpubpeer", accts[1].identity, false)
+	pDone := make(chan struct{})
+	go func() { _ = svc.HandleStream(pub); close(pDone) }()
+	expect := map[int]bool{}
+	idx := 1000
+	barrier := -1
+	send := func(topic string) int {
+		idx++
+		p := &pubsubproto.Publish{SpaceId: space, Topic: topic, MsgId: msgIdOf(idx), Payload: []byte("w"), TimestampMilli: time.Now().UnixMilli()}
+		signAs(accts[1], p)
+		pub.feed(wrapPub(p), wd)
+		return idx
+	}
+	var barrierTopic string
+	for _, t := range topics {
+		if anyMatch(setOf(wPats), t) {
+			barrierTopic = t
+		}
+	}
+	for _, t := range topics {
+		i := send(t)
+		expect[i] = anyMatch(setOf(wPats), t)
+	}
+	if barrierTopic != "" {
+		barrier = send(barrierTopic)
+		if !witness.waitFor(hasPublish(barrier, false), wd) {
+			c.Violation("witness:delivery:missed", "a member's publish on a topic matched by a currently registered pattern of the surviving stream did not reach it", map[string]any{"topic": barrierTopic, "witness_patterns": wPats})
+			return
+		}
+	}
+	got := map[int]int{}
+	for _, g := range witness.snapshot() {
+		if g.pub != nil {
+			got[msgIdx(g.pub.MsgId)]++
+		}
+	}
+	for i, must := range expect {
+		switch {
+		case must && got[i] == 0 && barrier >= 0:
+			c.Violation("witness:delivery:missed", "a member's publish on a topic matched by a currently registered pattern of the surviving stream did not reach it", map[string]any{"msg": i, "witness_patterns": wPats})
+		case !must && got[i] > 0:
+			c.Violation("witness:delivery:unexpected", "the surviving stream received a publish none of its patterns matches", map[string]any{"msg": i})
+		case got[i] > 1:
+			c.Violation("witness:delivery:duplicate", "the surviving stream received two copies of one publish", map[string]any{"msg": i})
+		}
+	}
+	c.Count("witness.publishes_checked", int64(len(expect)))
+	if nClose[0].Load() > 0 && nClose[1].Load() > 0 && nClose[2].Load() > 0 {
+		c.Nontrivial(fmt.Sprintf("w|%d|%v", seeds[0], wPats))
+	}
+	c.Sample("race-witness", map[string]any{"witness_patterns": wPats, "racing_streams": nStreams.Load(), "frames": nFrames.Load()})
+	pub.signalEOF()
+	witness.signalEOF()
+	<-pDone
+	<-wDone
+}
+
+func setOf(ps []string) map[string]bool {
+	m := map[string]bool{}
+	for _, p := range ps {
+		m[p] = true
+	}
+	return m
+}
